@@ -17,14 +17,15 @@ PID = "C14"
 META = dict(
     level="other",
     stubs=["getcoordinates (cylindrical / spherical): math.atan2(a, b) -> an angle symbol t with side conditions a = rho sin t, b = rho cos t, rho > 0, sin^2 + cos^2 = 1 (sin t, cos t, rho symbols); "
-           "math.sin / math.cos of that angle -> those symbols; math.hypot / linalg.norm -> non-negative root symbols",
+           "math.sin / math.cos of that angle -> those symbols; of any other angle term -> one (sin, cos) symbol pair on the unit circle per distinct term; math.hypot / linalg.norm -> non-negative root symbols",
            "mkusetcoordinfo: linalg.norm -> non-negative root symbol with its defining square; np.cross -> written out on object arrays; .astype(float) on symbolic values -> identity (AST hook)",
            "np.zeros in rbgeom -> object array", "mkusetcoordinfo in getcoordinates -> returns the symbolic 5x3 coordinate-system record (origin + orthonormal transform) of the harness"],
-    outside=["forward maps into cylindrical / spherical systems (_get_loc_a_basic with sin/cos of symbolic angles) and hence the curvilinear round trip; values of the trigonometric functions", "mkusetcoordinfo: y and x axes of the A-B-C construction (nested root symbols: unknown from nlsat at 15 s), cylindrical / spherical reference systems, lookup by id in a USET table; build_coords / addgrid chains (pandas)",
+    outside=["values of the trigonometric functions (angles are compared through their sines and cosines, i.e. modulo 360 degrees); curvilinear systems with a non-identity transform or as *reference* systems of mkusetcoordinfo", "mkusetcoordinfo: y and x axes of the A-B-C construction (nested root symbols: unknown from nlsat at 15 s), cylindrical / spherical reference systems, lookup by id in a USET table; build_coords / addgrid chains (pandas)",
              "rbgeom_uset (DataFrame), rbcoords, formrbe3 (least squares / LU), replace_basic_cs (raises on this NumPy: its two tests are baseline failures)"],
     assumptions=["curvilinear inverse maps: identity transform at the origin, point in [-10, 10]^3 at least 0.01 off the polar axis",
+                 "curvilinear round trip: 0.1 <= r <= 10, angles in [-360, 360] degrees, spherical polar angle with sin(theta) >= 0.01",
                  "grid coordinates, reference points, rigid motion parameters in [-10, 10]; rectangular transform T from a list of five exact rational rotation matrices (the fully symbolic orthonormal T was inconclusive in nlsat), origin and point symbolic"],
-    reach_required=["cylindrical", "spherical", "coordinfo", "coordinfo-identity-ref", "rbgeom-shift", "rbgeom-noshift", "rbgeom-partial-zero-ref", "rbgeom-gridref", "rbmove", "rect-roundtrip"],
+    reach_required=["cylindrical", "spherical", "cylindrical-roundtrip", "spherical-roundtrip", "coordinfo", "coordinfo-identity-ref", "rbgeom-shift", "rbgeom-noshift", "rbgeom-partial-zero-ref", "rbgeom-gridref", "rbmove", "rect-roundtrip"],
     trusted_base=["z3 5.1 (nlsat)"],
 )
 
@@ -322,6 +323,7 @@ class _Math:
         self.eng = eng
         self.angles = {}       # id of the angle symbol -> (sin symbol, cos symbol, rho symbol)
         self.calls = []        # (angle symbol, a, b) of every atan2(a, b)
+        self.free = {}         # id of an angle term that is not an atan2 result -> (sin symbol, cos symbol, term)
 
     def atan2(self, a, b):
         a_, b_ = S.lift(a), S.lift(b)
@@ -337,17 +339,23 @@ class _Math:
     def _of(self, x):
         return self.angles.get(z3.simplify(S.lift(x)).get_id()) or self.angles.get(S.lift(x).get_id())
 
-    def sin(self, x):
+    def _pair(self, x):
+        """(sin, cos) symbols of an angle term: those of the atan2 result, or a fresh pair on the unit circle per distinct term"""
         a = self._of(x)
-        if a is None:
-            raise E.Inconclusive("sin of a term that is not an atan2 result")
-        return S.SymR(a[0])
+        if a is not None:
+            return a
+        t = z3.simplify(S.lift(x))
+        if t.get_id() not in self.free:
+            sn, cs = self.eng.fresh("sin"), self.eng.fresh("cos")
+            self.eng.assume(sn * sn + cs * cs == 1)
+            self.free[t.get_id()] = (sn, cs, t)
+        return self.free[t.get_id()]
+
+    def sin(self, x):
+        return S.SymR(self._pair(x)[0])
 
     def cos(self, x):
-        a = self._of(x)
-        if a is None:
-            raise E.Inconclusive("cos of a term that is not an atan2 result")
-        return S.SymR(a[1])
+        return S.SymR(self._pair(x)[1])
 
     def hypot(self, a, b):
         eng = self.eng
@@ -414,6 +422,85 @@ def curvi_fn(ctype):
     return fn
 
 
+
+def curvi_rt_fn(ctype):
+    """entered (r, theta[, phi]) -> basic -> queried back: same radius, same angles (their sines and cosines)"""
+    def fn(eng):
+        S.set_engine(eng)
+        from vsym import astload
+        n2p = _n2p()
+        mth = _Math(eng)
+        r, t1, t2 = z3.Real("r"), z3.Real("ang1"), z3.Real("ang2")
+        eng.assume(z3.And(r >= z3.RealVal("0.1"), r <= 10, t1 >= -360, t1 <= 360, t2 >= -360, t2 <= 360))
+        ci = np.empty((5, 3), dtype=object)
+        ci[0] = [np.float64(7), np.float64(ctype), np.float64(0)]
+        ci[1] = [0.0, 0.0, 0.0]
+        ci[2:] = [[1.0, 0.0, 0.0], [0.0, 1.0, 0.0], [0.0, 0.0, 1.0]]
+        g = dict(n2p.getcoordinates.__globals__)
+        g.update(math=mth, linalg=_Linalg, mkusetcoordinfo=lambda cs, uset, coordref: ci, np=NPC())
+        fwd = astload.load(n2p._get_loc_a_basic, hooks=("astype",), globs=g)
+        inv = astload.load(n2p.getcoordinates, hooks=("astype",), globs=g)
+        info = dict(kernel="curvi-rt", ctype=ctype)
+        a = np.array([S.SymR(r), S.SymR(t1), S.SymR(t2)], dtype=object)
+        try:
+            loc = fwd(ci, a)
+        except E.Inconclusive:
+            raise
+        except Exception as ex:
+            import traceback
+            return [E.Obl("_get_loc_a_basic raises %r (%s)" % (ex, traceback.format_exc()[-300:]), False, info=info)]
+        a2r = z3.RealVal(Fraction(_Math.pi / 180.0))
+        pairs = {z3.simplify(v[2]).get_id(): v for v in mth.free.values()}
+        p1 = mth.free.get(z3.simplify(t1 * a2r).get_id())
+        obls = []
+        x, y, zc = [S.lift(v) for v in loc]
+        if ctype == 2:
+            obls.append(E.Obl("cylindrical forward map: the trigonometric functions are taken of theta in radians (one angle)", p1 is not None and len(mth.free) == 1, info=info))
+            if p1 is None:
+                return obls
+            s1, c1, _ = p1
+            obls.append(E.Obl("cylindrical forward map: x = r cos(theta), y = r sin(theta), z = z", z3.And(x == r * c1, y == r * s1, zc == t2), info=info))
+        else:
+            p2 = mth.free.get(z3.simplify(t2 * a2r).get_id())
+            obls.append(E.Obl("spherical forward map: the trigonometric functions are taken of theta and phi in radians", p1 is not None and p2 is not None and len(mth.free) == 2, info=info))
+            if p1 is None or p2 is None:
+                return obls
+            s1, c1, _ = p1
+            s2, c2, _ = p2
+            obls.append(E.Obl("spherical forward map: x = r sin(theta) cos(phi), y = r sin(theta) sin(phi), z = r cos(theta)",
+                              z3.And(x == r * s1 * c2, y == r * s1 * s2, zc == r * c1), info=info))
+            eng.assume(s1 >= z3.RealVal("0.01"))        # 0 < theta < 180: off the polar axis
+        eng.tag("cylindrical-roundtrip" if ctype == 2 else "spherical-roundtrip")
+        try:
+            back = np.ravel(inv(None, np.array([list(loc)], dtype=object), 7))
+        except E.Inconclusive:
+            raise
+        except Exception as ex:
+            import traceback
+            return obls + [E.Obl("getcoordinates raises %r (%s)" % (ex, traceback.format_exc()[-300:]), False, info=info)]
+        R = S.lift(back[0])
+        obls.append(E.Obl("round trip: the radius entered is returned", R == r, info=info))
+        calls = mth.calls
+        if ctype == 2:
+            ok = len(calls) == 1
+            obls.append(E.Obl("round trip: one atan2", ok, info=info))
+            if ok:
+                sn, cs, _ = mth.angles[calls[0][0].get_id()]
+                obls.append(E.Obl("round trip: the returned angle has the sine and cosine of the entered one (same angle modulo 360 degrees)",
+                                  z3.And(sn == s1, cs == c1, S.lift(back[1]) == calls[0][0] * 180 / z3.RealVal(Fraction(_Math.pi))), info=info))
+            obls.append(E.Obl("round trip: z returned", S.lift(back[2]) == t2, info=info))
+        else:
+            ok = len(calls) == 2
+            obls.append(E.Obl("round trip: two atan2", ok, info=info))
+            if ok:
+                sn, cs, _ = mth.angles[calls[0][0].get_id()]
+                obls.append(E.Obl("round trip: the returned azimuth has the sine and cosine of the entered phi", z3.And(sn == s2, cs == c2), info=info))
+                sn2, cs2, _ = mth.angles[calls[1][0].get_id()]
+                obls.append(E.Obl("round trip: the returned polar angle has the sine and cosine of the entered theta", z3.And(sn2 == s1, cs2 == c1), info=info))
+        return obls
+    return fn
+
+
 def replay_curvi(p):
     import math
     n2p = _n2p()
@@ -439,7 +526,37 @@ def replay_curvi(p):
     return False, "getcoordinates fine on the real code"
 
 
-REPLAY = {"curvi": replay_curvi, "rbgeom": replay_rbgeom, "rect": replay_rect, "coordinfo": replay_coordinfo}
+
+def replay_curvi_rt(p):
+    n2p = _n2p()
+    mdl = p["model"]
+    gf = lambda k, d: float(Fraction(mdl.get(k, d) if mdl.get(k) is not None else d))
+    ci = np.vstack(([7, p["ctype"], 0], np.zeros(3), np.eye(3)))
+    msgs = []
+    # the model fixes sines and cosines, not the angle symbols: the axis directions (where sin or cos vanish) are tried as well
+    cases = [[gf("r", 2.0), gf("ang1", 30.0), gf("ang2", 40.0)], [2.0, 30.0, 40.0], [1.5, 120.0, -75.0], [3.0, 179.0, 200.0 if p["ctype"] == 3 else 2.0]]
+    cases += [[2.0, t, ph] for t in (90.0, 45.0) for ph in (0.0, 90.0, 180.0, 270.0, -90.0)] if p["ctype"] == 3 else [[2.0, t, 1.0] for t in (0.0, 90.0, 180.0, 270.0, -90.0)]
+    for a in cases:
+        a = np.array(a)
+        if p["ctype"] == 3 and not (0 < a[1] < 180):
+            continue
+        loc = n2p._get_loc_a_basic(ci, a)
+        t1, t2 = np.radians(a[1]), np.radians(a[2])
+        want = [a[0] * np.cos(t1), a[0] * np.sin(t1), a[2]] if p["ctype"] == 2 else [a[0] * np.sin(t1) * np.cos(t2), a[0] * np.sin(t1) * np.sin(t2), a[0] * np.cos(t1)]
+        if not np.allclose(loc, want, atol=1e-9):
+            msgs.append("_get_loc_a_basic(%s) = %s, expected %s" % (a.tolist(), np.asarray(loc).tolist(), want))
+        back = np.ravel(n2p.getcoordinates(None, np.asarray(loc, float).reshape(1, 3), 7, {7: ci}))
+        d = back - a
+        for k in ((1,) if p["ctype"] == 2 else (1, 2)):
+            d[k] = (d[k] + 180) % 360 - 180
+        if not np.allclose(d, 0, atol=1e-7):
+            msgs.append("entered %s in a %s system, queried back %s" % (a.tolist(), "cylindrical" if p["ctype"] == 2 else "spherical", back.tolist()))
+    if msgs:
+        return True, "; ".join(msgs[:2])
+    return False, "curvilinear round trip fine on the real code"
+
+
+REPLAY = {"curvi-rt": replay_curvi_rt, "curvi": replay_curvi, "rbgeom": replay_rbgeom, "rect": replay_rect, "coordinfo": replay_coordinfo}
 
 
 def job(kind, *args):
@@ -448,6 +565,13 @@ def job(kind, *args):
     if kind == "curvi":
         eng = E.Engine(obl_timeout_ms=120000, tactic="qfnra-nlsat")
         eng.obl_mode = "each"
+    if kind == "curvi-rt":
+        eng = E.Engine(obl_timeout_ms=60000, tactic="qfnra-nlsat")
+        eng.obl_mode = "each"
+        res = eng.explore(curvi_rt_fn(*args), max_cex=3)
+        res["note"] = "%s %s" % (kind, args)
+        H.triage(res, "curvi-rt", replay_curvi_rt, lambda c: dict(ctype=args[0], model=c["model"]))
+        return res
     fn = rbgeom_fn(*args) if kind == "rbgeom" else (coordinfo_fn(*args) if kind == "coordinfo" else (curvi_fn(*args) if kind == "curvi" else rect_fn(*args)))
     res = eng.explore(fn, max_cex=3)
     res["note"] = "%s %s" % (kind, args)
@@ -470,6 +594,8 @@ def jobs(tier, seed):
     out.append(H.Job("coordinfo-identity-ref", job, "coordinfo", 0, True, weight=10))
     out.append(H.Job("cylindrical", job, "curvi", 2, weight=5))
     out.append(H.Job("spherical", job, "curvi", 3, weight=5))
+    out.append(H.Job("cylindrical-roundtrip", job, "curvi-rt", 2, weight=10))
+    out.append(H.Job("spherical-roundtrip", job, "curvi-rt", 3, weight=20))
     for qi in (1, 2) if tier == "quick" else (1, 2, 3, 4):
         out.append(H.Job("coordinfo-%d" % qi, job, "coordinfo", qi, False, weight=10))
     return out
